@@ -20,13 +20,13 @@ RULE = ("seeded tables with fields from {i1..u8, f4, f8, S1-S12} x {scalar, 1-d,
 TRUSTED = ["numpy long double for the unit-in-last-digit comparison"]
 ASSUMPTIONS = ["strings contain no newline and no byte >= 0x80; doubles whose 16-digit rounding overflows are not generated",
                "sign of zero is not compared"]
-REQUIRED = {"quick": {"C04.cells": 350, "C04.header": 200, "C04.file": 350},
-            "thorough": {"C04.cells": 7000, "C04.header": 4000, "C04.file": 7000}}
+REQUIRED = {"quick": {"C04.cells": 750, "C04.header": 400, "C04.file": 750},
+            "thorough": {"C04.cells": 15000, "C04.header": 8000, "C04.file": 15000}}
 ROUTES = ["sfile", "SFile", "Recfile", "io"]
 
 
 def cases(seed, tier):
-    n = 420 if tier == "quick" else 8400
+    n = 900 if tier == "quick" else 18000
     rng = np.random.default_rng([seed, 4])
     fams = ["mixed", "int-extremes", "float-decades", "strings", "layout-of-fields", "subarrays"]
     for i in range(n):
